@@ -2,5 +2,5 @@ INIT Init
 NEXT Next
 CONSTANTS
   Ids = {0, 1}
-  Positions = {1, 3}
+  Positions = {1, 2, 3}
 INVARIANT OwnRow
